@@ -179,6 +179,19 @@ def run_shard(spec, res):
                         res.violation({"kind": "utility", "util": "replace", "what": "old-subtree-still-present", "case": d, "old": repr(old)[:200], "result": repr(r)[:300]})
             elif kind == "replace_dict":
                 g, d = gen_tree()
+                if it % 6 == 1:
+                    # mirrored halves: substituting in one half yields (structurally) the other, original half
+                    w_ = rng.choice([4, 8, 32])
+                    gm = G.Gen(rng, nvars=2, widths=[w_], surface=False, allow_div=False, closed=True, nbools=0)
+                    f1 = gm.bv(w_, rng.choice([1, 2]))
+                    na, nb = f"a{w_}", f"b{w_}"
+                    f2 = subst_desc(subst_desc(subst_desc(f1, na, ["bvs", "#t", w_]), nb, ["bvs", na, w_]), "#t", ["bvs", nb, w_])
+                    A_, B_ = ["bvs", na, w_], ["bvs", nb, w_]
+                    h1 = ["lshr", A_, ["bvv", 1, w_]]
+                    d = rng.choice([
+                        ["ite", ["ult", A_, B_], f1, f2], ["sub", ["mul", f1, f2], f2], ["concat", f1, f2, f1], ["eq", ["sub", f1, f2], ["sub", f2, f1]],
+                        ["sub", h1, ["lshr", h1, ["bvv", 1, w_]]], ["xor", ["add", A_, B_], ["add", ["add", A_, B_], B_]],
+                    ])
                 e = safe_build(d)
                 vs = bvsem.variables(d)
                 if e is None or not vs:
@@ -186,20 +199,38 @@ def run_shard(spec, res):
                 names = rng.sample(sorted(vs), min(len(vs), rng.choice([1, 2, 3])))
                 mp, spec_d = {}, d
                 newds = {}
+                overlap = it % 3 == 1
                 for name in names:
                     srt = vs[name]
-                    # replacements must not mention replaced names (simultaneous substitution semantics)
-                    g2 = G.Gen(rng, nvars=2, widths=[srt[1]] if srt[0] == "bv" else [8], surface=False, allow_div=False)
-                    nd = g2.bv(srt[1], 1) if srt[0] == "bv" else g2.boolx(1)
-                    nd = _rename(nd, "Z")
+                    if overlap:
+                        # replacements over the replaced names themselves (a swap, x -> f(x, y)): the substitution
+                        # is simultaneous, a replaced-in sub-term is not substituted again
+                        same = [n for n in vs if vs[n] == srt]
+                        other = rng.choice(same)
+                        lf = lambda n: ["bvs", n, srt[1]] if srt[0] == "bv" else ["bools", n]  # noqa: E731
+                        if srt[0] == "bv":
+                            nd = rng.choice([lf(other), [rng.choice(["add", "sub", "xor", "lshr"]), lf(name), lf(other)], ["sub", lf(other), lf(name)], ["inv", lf(name)], ["lshr", lf(name), ["bvv", 1 % (1 << srt[1]), srt[1]]]])
+                        else:
+                            nd = rng.choice([lf(other), ["bnot", lf(name)], ["band", lf(name), lf(other)]])
+                    else:
+                        # replacements that do not mention replaced names
+                        g2 = G.Gen(rng, nvars=2, widths=[srt[1]] if srt[0] == "bv" else [8], surface=False, allow_div=False)
+                        nd = g2.bv(srt[1], 1) if srt[0] == "bv" else g2.boolx(1)
+                        nd = _rename(nd, "Z")
                     newds[name] = nd
+                # simultaneous substitution on the descriptor: through temporary names
+                for name in newds:
+                    srt = vs[name]
+                    spec_d = subst_desc(spec_d, name, ["bvs", name + "#tmp", srt[1]] if srt[0] == "bv" else ["bools", name + "#tmp"])
                 for name, nd in newds.items():
                     srt = vs[name]
                     old = safe_build(["bvs", name, srt[1]] if srt[0] == "bv" else ["bools", name])
                     new = safe_build(nd)
                     mp[old.hash()] = new
-                    spec_d = subst_desc(spec_d, name, nd)
-                use_leaf_op = it % 4 == 0
+                    spec_d = subst_desc(spec_d, name + "#tmp", nd)
+                if overlap:
+                    res.count("judged:replace_dict_overlapping")
+                use_leaf_op = it % 4 == 0 and not overlap
                 if use_leaf_op:
                     # leaf_operation renames every leaf that is not in the map (and is not part of a replacement,
                     # whose variables end in Z)
